@@ -25,6 +25,12 @@ Also emitted:
                     function (`global X`, X[...] = , X.append/extend/add/update/pop/setdefault/clear(...)),
                     and class-level mutable attributes: state that could leak from one decompiled
                     method into the next one;
+                    functions memoised with lru_cache/cache whose return value is (or may be) a mutable container
+                    are listed here too (kind "cached-mutable");
+  * `aliasMutations` in-place mutations (.remove/.append/.pop/.sort/…, del, item assignment) of a value fetched
+                    from a DvMethod/DvClass attribute of another object (`flags = m.access; flags.remove(..)`);
+  * `accessSources` how the `access` lists are produced (util.get_access_*: fresh list per call, not cached) and
+                    stored (`self.access = util.get_access_…(…)`): theorem access_lists_are_fresh pins them;
   * `pins`          normalised-AST hashes of the functions that are modelled by hand.
 
 Every site carries the sha256 (first 12 hex digits) of `ast.dump` of the enclosing statement, so that an
@@ -387,11 +393,133 @@ class Scanner:
                             and isinstance(n.func.value, ast.Name) and n.func.value.id in modnames \
                             and n.func.value.id not in local:
                         out.append((f, q, "mutate", n.func.value.id))
+        # module-level caches: a memoised function hands the SAME object to every caller; when that object
+        # is a mutable container, whatever one decompiled method does to it is seen by the next one
+        for f, q, fn in self.funcs:
+            if self.cache_decorated(fn) and self.returns_mutable(fn):
+                out.append((f, q, "cached-mutable", fn.name))
         res = []
         for x in out:
             if x not in res:
                 res.append(x)
         return res
+
+    @staticmethod
+    def cache_decorated(fn):
+        for d in fn.decorator_list:
+            e = d.func if isinstance(d, ast.Call) else d
+            name = e.id if isinstance(e, ast.Name) else (e.attr if isinstance(e, ast.Attribute) else "")
+            if name in ("lru_cache", "cache", "cached_property", "memoize", "memoized", "cached"):
+                return True
+        return False
+
+    @staticmethod
+    def immutable_expr(e):
+        if isinstance(e, (ast.Constant, ast.JoinedStr, ast.Compare, ast.BoolOp, ast.UnaryOp)):
+            return True
+        if isinstance(e, ast.Tuple):
+            return all(Scanner.immutable_expr(x) for x in e.elts)
+        if isinstance(e, ast.BinOp):          # '%s' % x, a + 1 …: str/int/tuple arithmetic makes a new value
+            return Scanner.immutable_expr(e.left) or isinstance(e.left, ast.Name)
+        if isinstance(e, ast.Call):
+            fn = e.func
+            name = fn.id if isinstance(fn, ast.Name) else (fn.attr if isinstance(fn, ast.Attribute) else "")
+            return name in ("str", "int", "bool", "float", "tuple", "frozenset", "len", "format", "join",
+                            "bytes", "hex", "repr")
+        return False
+
+    def returns_mutable(self, fn):
+        """conservative: True unless every return value is recognisably immutable"""
+        rets = [n for n in self.own_nodes(fn) if isinstance(n, ast.Return) and n.value is not None]
+        return any(not self.immutable_expr(r.value) for r in rets)
+
+    def dv_attrs(self):
+        """names of the attributes DvMethod / DvClass objects carry (self.X = … in decompile.py)"""
+        out = set()
+        for f, q, fn in self.funcs:
+            if f == "decompile.py" and q.split(".")[0] in ("DvMethod", "DvClass"):
+                for n in self.own_nodes(fn):
+                    if isinstance(n, (ast.Assign, ast.AnnAssign, ast.AugAssign)):
+                        tg = n.targets if isinstance(n, ast.Assign) else [n.target]
+                        for t in tg:
+                            if isinstance(t, ast.Attribute) and isinstance(t.value, ast.Name) and t.value.id == "self":
+                                out.add(t.attr)
+        return out
+
+    def alias_mutations(self):
+        """in-place mutation of a value fetched from an attribute of ANOTHER object (`flags = m.access;
+        flags.remove(..)`, `m.access.append(..)`, `del m.x[..]`, `m.x[..] = ..`) where the attribute is one a
+        DvMethod/DvClass carries: such a value may be shared with other methods.  (file, func, attr, op)"""
+        attrs = self.dv_attrs()
+        out = []
+
+        def fetched(e):          # `<not self>.<attr>` -> attr
+            if isinstance(e, ast.Attribute) and e.attr in attrs and not (
+                    isinstance(e.value, ast.Name) and e.value.id == "self"):
+                return e.attr
+            return None
+        for f, q, fn in self.funcs:
+            alias = {}
+            for n in self.own_nodes(fn):
+                if isinstance(n, ast.Assign) and len(n.targets) == 1 and isinstance(n.targets[0], ast.Name):
+                    a = fetched(n.value)
+                    if a:
+                        alias[n.targets[0].id] = a
+            def src(e):
+                if isinstance(e, ast.Name) and e.id in alias:
+                    return alias[e.id]
+                return fetched(e)
+            for n in self.own_nodes(fn):
+                if isinstance(n, ast.Call) and isinstance(n.func, ast.Attribute) and n.func.attr in (
+                        MUTATORS | {"sort", "reverse", "__setitem__", "__delitem__"}):
+                    a = src(n.func.value)
+                    if a:
+                        out.append((f, q, a, n.func.attr))
+                if isinstance(n, ast.Delete):
+                    for t in n.targets:
+                        if isinstance(t, ast.Subscript) and src(t.value):
+                            out.append((f, q, src(t.value), "del"))
+                if isinstance(n, (ast.Assign, ast.AugAssign)):
+                    tg = n.targets if isinstance(n, ast.Assign) else [n.target]
+                    for t in tg:
+                        if isinstance(t, ast.Subscript) and src(t.value):
+                            out.append((f, q, src(t.value), "setitem"))
+                        if isinstance(n, ast.AugAssign) and isinstance(t, ast.Name) and src(t):
+                            out.append((f, q, src(t), "augassign"))
+        res = []
+        for x in out:
+            if x not in res:
+                res.append(x)
+        return res
+
+    def access_sources(self):
+        """where the `access` lists come from: each producer (util.get_access_*) must build a NEW list on every
+        call (no cache decorator, every return a list display / comprehension / list(..) call), and each
+        `self.access = …` of DvMethod/DvClass must be a direct call of a producer.  (file, func, what)"""
+        out = []
+        producers = set()
+        for f, q, fn in self.funcs:
+            if f == "util.py" and fn.name.startswith("get_access_"):
+                rets = [n.value for n in self.own_nodes(fn) if isinstance(n, ast.Return) and n.value is not None]
+                fresh = bool(rets) and all(
+                    isinstance(r, (ast.List, ast.ListComp)) or (
+                        isinstance(r, ast.Call) and isinstance(r.func, ast.Name) and r.func.id in ("list", "sorted"))
+                    for r in rets)
+                kind = "cached" if self.cache_decorated(fn) else ("fresh-list" if fresh else "not-fresh")
+                out.append((f, q, kind))
+                producers.add(fn.name)
+        for f, q, fn in self.funcs:
+            if f == "decompile.py" and q.split(".")[0] in ("DvMethod", "DvClass"):
+                for n in self.own_nodes(fn):
+                    if isinstance(n, ast.Assign):
+                        for t in n.targets:
+                            if isinstance(t, ast.Attribute) and t.attr == "access" and isinstance(t.value, ast.Name) \
+                                    and t.value.id == "self":
+                                v = n.value
+                                name = v.func.attr if isinstance(v, ast.Call) and isinstance(v.func, ast.Attribute) \
+                                    else (v.func.id if isinstance(v, ast.Call) and isinstance(v.func, ast.Name) else "")
+                                out.append((f, q, "call:" + name if name in producers else "other:" + ast.unparse(v)[:40]))
+        return out
 
     def pins(self):
         out = []
@@ -441,6 +569,12 @@ def generate(repo):
     L += ["]", "", "/-- module-level / class-level state that functions of the package mutate -/",
           "def globalMutations : List (String × String × String × String) := ["]
     L += [",\n".join("  (%s, %s, %s, %s)" % tuple(map(lstr, s)) for s in sc.global_mutations())]
+    L += ["]", "", "/-- in-place mutations of values fetched from DvMethod/DvClass attributes of another object -/",
+          "def aliasMutations : List (String × String × String × String) := ["]
+    L += [",\n".join("  (%s, %s, %s, %s)" % tuple(map(lstr, s)) for s in sc.alias_mutations())]
+    L += ["]", "", "/-- producers of the `access` lists and the assignments that store them -/",
+          "def accessSources : List (String × String × String) := ["]
+    L += [",\n".join("  (%s, %s, %s)" % tuple(map(lstr, s)) for s in sc.access_sources())]
     L += ["]", "", "/-- normalised-AST hashes of the hand-modelled functions -/",
           "def pins : List (String × String × String) := ["]
     L += [",\n".join("  (%s, %s, %s)" % tuple(map(lstr, s)) for s in sc.pins())]
@@ -456,5 +590,7 @@ if __name__ == "__main__":
         print("%-16s %-44s %-7s %-12s %4d  %s" % (s["file"], s["func"], s["kind"], s["hash"], s["line"], s["expr"]))
     print("ordered:", sc.ordered_sites())
     print("global :", sc.global_mutations())
+    print("alias  :", sc.alias_mutations())
+    print("access :", sc.access_sources())
     print("set attrs:", sorted(sc.set_attrs), "dictset attrs:", sorted(sc.dictset_attrs), sorted(sc.dictdictset_attrs))
     print("set funcs:", sorted(sc.set_funcs), "set params:", sorted(sc.set_params, key=str))
